@@ -192,45 +192,43 @@ def run(prog: Program, rep, thorough: bool) -> None:
     k, n_, r_, nr = A.sym('k'), A.sym('n'), A.sym('r'), A.sym('nr')
     cases = {'stay': 0, 'switch': 0, 'beyond': 0}
     problems = []
-    for path, leaf in leaves(tree):
-        reached = beyond = None
-        for t, pol in path:
-            if t.kind == 'nonneg' and t.rf.equals(r_ - nr):
-                reached = pol
-            elif t.kind == 'nonneg' and t.rf.equals(k + 1 - n_):
-                beyond = pol
-            elif t.kind == 'pos' and t.rf.equals(n_ - k - 1):
-                beyond = not pol
-            elif t.kind == 'truthy':
+    # which transition a path belongs to is decided by evaluating its guards at one point of every ordering of
+    # (requested range r vs end of the segment nr) x (k + 1 vs number of segments n): any spelling of the two tests
+    from .c16 import reachable_leaves
+    for t_ in {t for path, _lf in leaves(tree) for t, _pol in path}:
+        if t_.rf is not None and not t_.rf.symbols() <= {'r', 'nr', 'k', 'n'}:
+            problems.append(f'depends on {t_!r}')
+    points = [('stay', {'r': 5.0, 'nr': 9.0, 'k': 1.0, 'n': 4.0}), ('stay', {'r': 5.0, 'nr': 9.0, 'k': 3.0, 'n': 4.0}),
+              ('stay', {'r': 5.0, 'nr': 9.0, 'k': 6.0, 'n': 4.0}),
+              ('switch', {'r': 9.0, 'nr': 9.0, 'k': 1.0, 'n': 4.0}), ('switch', {'r': 12.0, 'nr': 9.0, 'k': 2.0, 'n': 4.0}),
+              ('beyond', {'r': 9.0, 'nr': 9.0, 'k': 3.0, 'n': 4.0}), ('beyond', {'r': 12.0, 'nr': 9.0, 'k': 3.0, 'n': 4.0}),
+              ('beyond', {'r': 12.0, 'nr': 9.0, 'k': 7.0, 'n': 4.0})]
+    for case, env_ in points:
+        for leaf in reachable_leaves(tree, env_):
+            if leaf.kind == 'raise':
                 continue
+            h = leaf.state.heap[sock.oid]
+            cur, cache, nxt = h.get(roles['index']), h.get(roles['cache']), h.get(roles['next'])
+            ret = _strip_raise(leaf.value)
+            cases[case] += 1
+            if case == 'stay':
+                if not (isinstance(cur, Scalar) and cur.rf.equals(k) and isinstance(ret, SymObj) and ret.path == 'cache'):
+                    problems.append('before the end of the segment the index or the vector changes')
+            elif case == 'beyond':
+                zero = isinstance(ret, Inst) and all(isinstance(leaf.state.heap[ret.oid].get(c), Scalar)
+                                                     and leaf.state.heap[ret.oid][c].rf.is_zero() for c in 'xyz')
+                if not zero:
+                    problems.append(f'beyond the last segment the wind is {ret!r}, not the zero vector')
+                if not (isinstance(nxt, Scalar) and isinstance(maxd, Scalar) and nxt.rf.equals(maxd.rf)) and \
+                        not (isinstance(nxt, SymObj)):
+                    problems.append(f'beyond the last segment next_range becomes {nxt!r}')
             else:
-                problems.append(f'depends on {t!r}')
-        if leaf.kind == 'raise':
-            continue
-        h = leaf.state.heap[sock.oid]
-        cur, cache, nxt = h.get(roles['index']), h.get(roles['cache']), h.get(roles['next'])
-        ret = _strip_raise(leaf.value)
-        if reached is False:
-            cases['stay'] += 1
-            if not (isinstance(cur, Scalar) and cur.rf.equals(k) and isinstance(ret, SymObj) and ret.path == 'cache'):
-                problems.append('before the end of the segment the index or the vector changes')
-        elif beyond is True:
-            cases['beyond'] += 1
-            zero = isinstance(ret, Inst) and all(isinstance(leaf.state.heap[ret.oid].get(c), Scalar)
-                                                 and leaf.state.heap[ret.oid][c].rf.is_zero() for c in 'xyz')
-            if not zero:
-                problems.append(f'beyond the last segment the wind is {ret!r}, not the zero vector')
-            if not (isinstance(nxt, Scalar) and isinstance(maxd, Scalar) and nxt.rf.equals(maxd.rf)) and \
-                    not (isinstance(nxt, SymObj)):
-                problems.append(f'beyond the last segment next_range becomes {nxt!r}')
-        elif reached is True and beyond is False:
-            cases['switch'] += 1
-            if not (isinstance(cur, Scalar) and cur.rf.equals(k + 1)):
-                problems.append(f'on a switch the index becomes {cur!r}, expected k + 1')
-            if not (isinstance(ret, SymObj) and ret.path == f'winds[{(k + 1)!r}].vector'):
-                problems.append(f'on a switch the wind is {ret!r}, expected the vector of segment k + 1')
-            if not (isinstance(nxt, Scalar) and repr(nxt.rf) == f'winds[{(k + 1)!r}].until_distance >> Foot'):
-                problems.append(f'on a switch next_range becomes {nxt!r}, expected until_distance of segment k + 1 in feet')
+                if not (isinstance(cur, Scalar) and cur.rf.equals(k + 1)):
+                    problems.append(f'on a switch the index becomes {cur!r}, expected k + 1')
+                if not (isinstance(ret, SymObj) and ret.path == f'winds[{(k + 1)!r}].vector'):
+                    problems.append(f'on a switch the wind is {ret!r}, expected the vector of segment k + 1')
+                if not (isinstance(nxt, Scalar) and repr(nxt.rf) == f'winds[{(k + 1)!r}].until_distance >> Foot'):
+                    problems.append(f'on a switch next_range becomes {nxt!r}, expected until_distance of segment k + 1 in feet')
     if min(cases.values()) == 0:
         problems.append(f'cases seen {cases}: a transition is missing')
     if problems:
